@@ -14,6 +14,7 @@ import (
 	"encoding/json"
 	"fmt"
 	"math/big"
+	"os"
 	"sort"
 	"strconv"
 	"strings"
@@ -513,6 +514,7 @@ type result struct {
 	outcomes []string // one per transaction
 	moved    bool     // some balance slot changed
 	panicked string
+	trace    []string // per block: what changed (for replay output)
 }
 
 func newWorld(k kase) *world {
@@ -597,7 +599,7 @@ func msgClass(msg string) string {
 		if x != "" {
 			keep = append(keep, x)
 		}
-		if len(keep) == 5 {
+		if len(keep) == 2 {
 			break
 		}
 	}
@@ -735,6 +737,7 @@ func runCase(k kase) (res result) {
 		}
 		w.reopen()
 		post := w.observe()
+		res.trace = append(res.trace, w.describe(b, pre, post, burn))
 		res.findings = append(res.findings, w.compare(b.index, pre, post, burn)...)
 		if !res.moved {
 			for key := range w.uni {
@@ -747,6 +750,18 @@ func runCase(k kase) (res result) {
 		pre = post
 	}
 	return
+}
+
+func (w *world) describe(b blockPlan, pre, post snapshot, burn *big.Int) string {
+	var parts []string
+	for k, lbl := range w.uni {
+		if !bytes.Equal(pre.slots[k], post.slots[k]) {
+			parts = append(parts, fmt.Sprintf("%s:%s->%s", lbl, new(big.Int).SetBytes(pre.slots[k]), new(big.Int).SetBytes(post.slots[k])))
+		}
+	}
+	sort.Strings(parts)
+	return fmt.Sprintf("block %d height %d txs %d: balances %s->%s stake %s->%s pending-refunds %s->%s burn-witness %s; %s",
+		b.index, b.height, len(b.specs), w.balSum(pre), w.balSum(post), pre.stake, post.stake, pre.refund, post.refund, burn, strings.Join(parts, " "))
 }
 
 // compare is the oracle for one executed block.
@@ -942,6 +957,7 @@ type enumerator struct {
 	stop bool
 	nont int64
 	done int64
+	table map[string]int
 }
 
 func (e *enumerator) do(k kase) {
@@ -969,6 +985,7 @@ func (e *enumerator) do(k kase) {
 	}
 	for _, o := range r.outcomes {
 		e.c.Outcome(o)
+		e.table[o]++
 	}
 	if r.moved {
 		e.nont++
@@ -1276,9 +1293,13 @@ func boot() {
 
 func run(c *fw.Ctx) {
 	boot()
-	e := &enumerator{c: c}
+	e := &enumerator{c: c, table: map[string]int{}}
 	enumerate(e)
 	c.NontrivialN(e.nont)
+	if f := os.Getenv("C06_OUTCOMES"); f != "" { // development aid: per-worker outcome table
+		js, _ := json.MarshalIndent(e.table, "", " ")
+		os.WriteFile(fmt.Sprintf("%s.%d", f, c.Shard), js, 0o644)
+	}
 	c.Note("cases_in_space", e.idx)
 }
 
@@ -1294,6 +1315,9 @@ func replay(c *fw.Ctx, raw json.RawMessage) {
 		return
 	}
 	fmt.Println("outcomes:", r.outcomes)
+	for _, t := range r.trace {
+		fmt.Println(t)
+	}
 	if len(r.findings) > 0 {
 		var msg []string
 		for _, f := range r.findings {
